@@ -306,8 +306,13 @@ func (st *State) conv(tdst, tsrc types.Type, x Value) Value {
 		}
 	}
 	if b, ok := us.(*types.Basic); ok && b.Kind() == types.UnsafePointer {
-		switch ud.(type) {
+		switch pt := ud.(type) {
 		case *types.Pointer:
+			if p, ok := x.(Ptr); ok && p.O != nil {
+				if np, did := st.reinterpret(p, pt.Elem()); did {
+					return np
+				}
+			}
 			return x
 		case *types.Basic: // uintptr
 			p := x.(Ptr)
@@ -503,4 +508,111 @@ func (st *State) strIterNext(it *StrIter) (bool, Value, Value) {
 	sz := st.asInt(res[1], 0, 4)
 	it.I += int(sz)
 	return true, term.BV(64, uint64(i)), res[0]
+}
+
+// typeAtPath follows a pointer path through a type.
+func typeAtPath(t types.Type, path []PathElem) types.Type {
+	for _, e := range path {
+		if t == nil {
+			return nil
+		}
+		switch u := t.Underlying().(type) {
+		case *types.Struct:
+			if e.I >= u.NumFields() {
+				return nil
+			}
+			t = u.Field(e.I).Type()
+		case *types.Array:
+			t = u.Elem()
+		default:
+			return nil
+		}
+	}
+	return t
+}
+
+func flatIntWidth(t types.Type) (elemBits int, count int, ok bool) {
+	switch u := t.Underlying().(type) {
+	case *types.Basic:
+		if u.Info()&types.IsInteger != 0 {
+			return basicWidth(u), 1, true
+		}
+	case *types.Array:
+		eb, c, ok := flatIntWidth(u.Elem())
+		if ok {
+			return eb, c * int(u.Len()), true
+		}
+	}
+	return 0, 0, false
+}
+
+func buildFlat(t types.Type, elems []*term.T, pos *int) Value {
+	switch u := t.Underlying().(type) {
+	case *types.Basic:
+		v := elems[*pos]
+		*pos++
+		return v
+	case *types.Array:
+		a := &ArrayV{E: make([]Value, u.Len())}
+		for i := range a.E {
+			a.E[i] = buildFlat(u.Elem(), elems, pos)
+		}
+		return a
+	}
+	return nil
+}
+
+// reinterpret handles unsafe casts between integer-array layouts, e.g.
+// (*[16]uint8)(unsafe.Pointer(&[]uint64{...}[0])): it returns a pointer to a fresh copy of
+// the bytes viewed as the target type (little endian). Aliasing with the source is lost,
+// which is sound only for read-only uses; the copy is frozen-by-convention.
+func (st *State) reinterpret(p Ptr, target types.Type) (Ptr, bool) {
+	if p.O.Typ == nil || len(p.Path) == 0 {
+		return p, false
+	}
+	cur := typeAtPath(p.O.Typ, p.Path)
+	if cur == nil || types.Identical(cur, target) {
+		return p, false
+	}
+	tBits, tCount, ok1 := flatIntWidth(target)
+	sBits, _, ok2 := flatIntWidth(cur)
+	if !ok1 || !ok2 {
+		return p, false
+	}
+	last := p.Path[len(p.Path)-1]
+	if last.Sym != nil {
+		return p, false
+	}
+	parent, ok := st.walk(st.rd(p.O).V, p.Path[:len(p.Path)-1]).(*ArrayV)
+	if !ok {
+		return p, false
+	}
+	needBytes := tBits / 8 * tCount
+	sBytes := sBits / 8
+	var bytes []*term.T
+	for i := last.I; i < len(parent.E) && len(bytes) < needBytes; i++ {
+		e, ok := parent.E[i].(*term.T)
+		if !ok {
+			return p, false
+		}
+		for b := 0; b < sBytes; b++ {
+			bytes = append(bytes, term.MkExtract(b*8+7, b*8, e))
+		}
+	}
+	if len(bytes) < needBytes {
+		st.unsupported("unsafe reinterpretation reads past the end of the source array")
+	}
+	elems := make([]*term.T, tCount)
+	tb := tBits / 8
+	for i := range elems {
+		v := bytes[i*tb]
+		for b := 1; b < tb; b++ {
+			v = term.MkConcat(bytes[i*tb+b], v)
+		}
+		elems[i] = v
+	}
+	pos := 0
+	val := buildFlat(target, elems, &pos)
+	o := st.newObj(val, target)
+	return Ptr{O: o}, true
 }
